@@ -81,6 +81,8 @@ Definition all_pairs (g : graph) : list (node * node) :=
 Definition is_fetch (e : event) : bool := match e with Fetch _ _ => true | _ => false end.
 Definition fetches (p : node * node) (e : event) : bool :=
   match e with Fetch i j => pair_eqb p (i, j) | _ => false end.
+(* a late ribUpdate on a deleted neighbour object (no transfer: it must leave the state alone) *)
+Definition is_late (e : event) : bool := match e with LateUpdate _ _ _ => true | _ => false end.
 (* advertisement transfers, atomic (Fetch) or of an advertisement generated earlier (Deliver) *)
 Definition is_xfer (e : event) : bool := match e with Fetch _ _ | Deliver _ _ _ => true | _ => false end.
 Definition xfers (p : node * node) (e : event) : bool :=
